@@ -3,4 +3,5 @@ from . import _sc
 
 
 def main(tier):
-    return _sc.run("C05", tier, ["c05_"], act_filter=lambda a: a["op"] not in _sc.ELEM, quick_pairs=14000)
+    # the invalidation scenarios are part of "the documented new state" (attributes declared invalidated_by go back to their default)
+    return _sc.run("C05", tier, ["c05_"], names=_sc.ALL + ["inv_chain", "inv_attr"], act_filter=lambda a: a["op"] not in _sc.ELEM, quick_pairs=12000)
